@@ -203,6 +203,17 @@ class XsdModel(bp.EditModel):
             for b in bases:
                 for h in (homes[:2] if self.lean else homes):
                     ops.append(['add_udt', nm, b, h])
+        # (round 11, C20-20) a second data type named like one that exists already, in another place: data types are told
+        # apart by what they are, not by their names -- both are declared wherever both are in scope
+        if True:
+            shadowed = sorted(t.id for t in d.types.values() if t.kind == 'enum' and t.id not in predefined)[:1]
+            shadowed += sorted(t.id for t in d.types.values() if t.kind == 'user' and t.id not in predefined)[:1]
+            for tid in shadowed:
+                t = d.types[tid]
+                if [x.name for x in d.types.values()].count(t.name) > 1:
+                    continue
+                for h in [x for x in homes if x != t.home][:(None if self.full else 2)]:
+                    ops.append(['add_udt', t.name, d.type_named('real').id, h])
         if not self.lean:
             # a structured data type with a core-typed and an enumeration-typed (else integer) member
             where = homes[:2] if (self.full or self.name == 'structs') else (homes[2:3] or homes[:1])
